@@ -34,9 +34,21 @@ PATHS = ['/', '/a', '/a/', '/a/b', '/a/b/', '/a/7', '/b', '/b/q', '/q', '/q/', '
 METHODS = ['GET', 'HEAD', 'POST', 'PUT', 'DELETE', 'get', 'post', 'FOO', 'OPTIONS']
 METHOD_SETS = [None, None, ['GET'], ['POST'], ['get', 'PUT'], ['DELETE', 'POST'], ['HEAD'], ['GET', 'POST', 'PUT']]
 OUTCOMES = ['ok', 'ok', 'ok', 'brk404', 'brk503', 'brk409_ret', 'brk400_ret', 'nb403_raise', 'nb404_ret', 'nb404_raise', 'nb403_ret', 'boom']
+class SimTemplateError(LookupError):
+    pass
+
+
+FACTORY_EXCS = {'RuntimeError': RuntimeError, 'OSError': OSError, 'KeyError': KeyError, 'SimTemplateError': SimTemplateError,
+                'AssertionError': AssertionError, 'ValueError': ValueError, 'UnicodeError': UnicodeError}
+
+
 def make_render_factory(ftag):
     """A render factory as an Application would carry it: render argument -> render function."""
     def factory(arg):
+        if str(arg).startswith('bad-template:'):
+            # the application's own factory cannot make this renderer -- and says so with an exception of ITS choosing
+            raise FACTORY_EXCS[str(arg).split(':')[1]]('render factory %s has no template %r' % (ftag, arg))
+
         def render(context):
             h = {'X-R': context['tag'], 'X-Route-Res': context['route_res'], 'X-App-Res': context['app_res'],
                  'X-Rendered-By': ftag, 'X-Render-Arg': str(arg)}
@@ -165,7 +177,7 @@ def observe(ex):
     return {'status': ex.code, 'tag': ex.header('X-R'),
             'allow': set(x.strip() for x in allow.split(',') if x.strip()) if allow is not None else None,
             'location': ex.header('Location'), 'route_res': ex.header('X-Route-Res'), 'app_res': ex.header('X-App-Res'),
-            'rendered_by': ex.header('X-Rendered-By'),
+            'rendered_by': ex.header('X-Rendered-By'), 'stamp': ex.header('X-Stamp'),
             'escaped': type(ex.escaped).__name__ if ex.escaped is not None else None}
 
 
